@@ -82,6 +82,9 @@ func (sim) Generate(prop, tier string, seed uint64) *core.Plan {
 	}
 	pollers := r.Intn(3)
 	p.Cfg["pollers"] = int64(pollers)
+	if r.Chance(1, 2) {
+		p.Cfg["yield_after_unlock"] = 1 // releases of clientMtx are scheduling points too
+	}
 	h := int64(100)
 	expected := 1 // ClientConnected
 	recvd := 0
@@ -513,7 +516,8 @@ func (sim) Execute(env *core.Env, p *core.Plan) {
 	}
 
 	rep := simrt.Run(simrt.Config{Seed: p.SchedSeed, Strategy: strategy, MediateChans: true,
-		StuckAfter: 2 * time.Hour, MaxSteps: 400000, ExpectedSteps: 60 + 20*len(p.Ops), Trace: env.Verbose}, main)
+		StuckAfter: 2 * time.Hour, MaxSteps: 400000, ExpectedSteps: 60 + 20*len(p.Ops), Trace: env.Verbose,
+		YieldAfterUnlock: p.C("yield_after_unlock", 0) == 1}, main)
 	env.Add("sched.steps", int64(rep.Steps))
 	env.Add("sched.preemptions", int64(rep.Preemptions))
 	for _, k := range core.SortedKeys(rep.SiteHits) {
